@@ -1298,6 +1298,11 @@ impl<'de, R: Read<'de>> Parser<R> {
             .extend_from_slice(buffer.format(exponent).as_bytes());
         // SAFETY: Unsafe should be OK here, as `itoa::Buffer::format()` should
         // never produce non-ASCII output.
+        #[cfg(feature = "verif-hooks")]
+        assert!(
+            str::from_utf8(&self.scratch).is_ok(),
+            "verif: ill-formed UTF-8 at Parser::f64_from_parts"
+        );
         let f: f64 = unsafe { str::from_utf8_unchecked(&self.scratch) }
             .parse()
             .map_err(|_| self.error(ErrorCode::NumberOutOfRange))?;
